@@ -270,7 +270,7 @@ def run_index(cx, exe, drv, rng):
         meta[c["id"]] = c
     kl = lambda l: l.split()[1]
     ko = lambda l: l.split()[1] if l[:3] in ("EXT", "REV") else None
-    out, crashes = vp.run_cases(exe, lines, kl, ko, timeout=600)
+    out, crashes = vp.run_cases(exe, lines, kl, ko, timeout=150)
     for cl, rc, err in crashes:
         cx.violation("constructor-crash", "Extrude/Revolve crashed (rc=%s): %s" % (rc, err[-200:]), {"case": cl})
     rc, mout, merr = vp.sh2([drv], input="\n".join(mlines) + "\n", timeout=600)
@@ -286,7 +286,7 @@ def run_index(cx, exe, drv, rng):
         if l[:3] in ("EXT", "REV"):
             d = parse_dump(l)
             impl[d["id"]] = d
-    # oracle on every implementation list: closed 2-manifold with indices in range
+    # oracle on every implementation list: boundary chain 0 (every directed edge matched by its reverse) with indices in range
     clines = ["CLOSED %s %d %s" % (i, d["nv"], " ".join("%d %d %d" % t for t in d["tris"])) for i, d in impl.items() if d["captured"] and d["tris"]]
     rc, cout, cerr = vp.sh2([drv], input="\n".join(clines) + "\n", timeout=600)
     closed = {l.split()[1]: l.split()[2] == "1" for l in cout.splitlines() if l.startswith("CLOSED")}
@@ -307,11 +307,11 @@ def run_index(cx, exe, drv, rng):
         if i not in model:
             continue
         nv, sides = model[i]
-        ok_oracle = d["status"] == 0 and closed.get(i, False) and d["numtri"] == len(d["tris"]) and d["numvert"] == d["nv"]
+        ok_oracle = d["status"] == 0 and closed.get(i, False) and 0 < d["numtri"] <= len(d["tris"]) and d["numvert"] <= d["nv"]
         if not ok_oracle:
             cx.violation(("extrude" if isext else "revolve") + "-index-not-closed",
-                         "%s: triVerts handed to CreateHalfedges is not a closed 2-manifold over its vertices or the result is not the "
-                         "full mesh (status %d, closed %s, numtri %d/%d, verts %d/%d)" % (
+                         "%s: triVerts handed to CreateHalfedges is not a closed chain over its vertices or the result was "
+                         "rejected (status %d, closed %s, numtri %d/%d, verts %d/%d)" % (
                              "Extrude" if isext else "Revolve", d["status"], closed.get(i), d["numtri"], len(d["tris"]), d["numvert"], d["nv"]), replay)
         if d["nv"] != nv or d["tris"][:len(sides)] != sides:
             mism += 1
@@ -564,6 +564,8 @@ def geo_cases(rng, cx):
         edge = rng.choice([0.2, 0.25, 0.3])
         level = rng.choice([0.0, 0.0, 0.1, -0.1])
         tol = rng.choice([-1.0, 1e-3, 1e-5])
+        if k == 3:      # keep the lens (intersection of the two balls, inset by level) at least 0.7 thick
+            c = round(max(0.05, min(c, (a + b - 2 * max(level, 0.0) - 0.7) / 2)), 2)
         ball = lambda p, ctr, r: r - math.sqrt((p[0] - ctr) ** 2 + p[1] ** 2 + p[2] ** 2)
         if k == 0:
             f = lambda p, a=a: ball(p, 0.0, a)
@@ -635,6 +637,9 @@ def run_geo(cx, exe, drv, rng):
             cx.violation("valid-arguments-rejected-or-empty", "valid arguments gave status %d empty %d: %s" % (g["status"], g["empty"], line[:200]), replay)
             continue
         stage = "final" if c["ops"] else "base"
+        if (c["id"], stage) not in mesh or (c["ops"] and (c["id"], "base") not in mesh):
+            cx.broke("corr:C17/geo#%s" % c["id"], "mesh output missing for %s" % line[:200])
+            continue
         vs, ts = mesh[(c["id"], stage)]
         fr = [bits2frac(u) for u in vs]
         if any(f is None for f in fr):
@@ -760,6 +765,20 @@ def run_geo(cx, exe, drv, rng):
     return len(cases), nontriv
 
 
+def run_findings2(cx, exe2):
+    lines = ["GEO n1 REVO 5 -90.0 1 3 1.0 0.0 2.0 1.0 1.0 2.0", "GEO n2 REVO 5 0.0 1 3 1.0 0.0 2.0 1.0 1.0 2.0"]
+    rc, out, err = vp.sh2([exe2], input="\n".join(lines) + "\n", timeout=120)
+    for l in out.splitlines():
+        t = l.split()
+        if l.startswith("GEO") and len(t) > 11:
+            status, empty, vol = int(t[3]), int(t[5]), float.fromhex(t[11])
+            if not (status == INVALID and empty) and vol <= 0:
+                cx.violation("revolve-nonpositive-angle-not-rejected",
+                             "Revolve with revolveDegrees <= 0 is neither rejected nor normalised: status %d, empty %d, volume %r "
+                             "(negative = inside-out surface)" % (status, empty, vol), {"case": lines[0 if t[1] == "n1" else 1], "volume": vol})
+                break
+
+
 def run_findings(cx, exe):
     """arguments the proofs force us to look at: nDivisions = 0 in Revolve, nDivisions < 0 in Extrude"""
     lines = ["REV f1 0 20.0 1 3 1.0 0.0 2.0 1.0 1.0 2.0", "EXT f2 -2 0 0.0 1 3", "EXT f3 -1 0 0.0 1 4"]
@@ -817,6 +836,7 @@ def run(cx):
     n4, t4 = run_geo(cx, exe2, drv, rng)
     cx.log("geometry oracle: %d cases, %d non-trivial" % (n4, t4))
     run_findings(cx, exe)
+    run_findings2(cx, exe2)
     cx.cov.update({"evaluations": n1 + n2 + n3 + n4, "distinct_nontrivial": t1 + t4,
                    "rule": "index cases: non-trivial = model and implementation agree on a non-empty triangle list; geometry cases: non-trivial = sample "
                            "points on both sides of the surface were classified (or an invalid-argument case was rejected, or a 90-degree rotation was bit-exact)"})
